@@ -1,3 +1,8 @@
 import BufrModel.Basic.Bits
 import BufrModel.Lemmas.Bits
 import BufrModel.Props.C19
+import BufrModel.Msg.Layout
+import BufrModel.Gen.Layouts
+import BufrModel.Lang.PathParser
+import BufrModel.Spec.PathGrammar
+import BufrModel.Props.C15
